@@ -9,6 +9,18 @@ from pydv import core, kit, loopcut, alg
 from pydv import stubtorch as st
 from pydv.core import ctx, fresh_int, fresh_real, fresh_bool, SReal, SInt, SBool, OutOfSubset
 
+CLAIM = {
+    "claimed": True,
+    "category": "proof",
+    "text": "Postconditions on the real solver loops, proved for all inputs, tolerances and iteration counts (loops cut at "
+            "invariants): a silent return is the iterate accepted by the termination test and satisfies the norm test; "
+            "warning category; shape/dtype; reductions equilibrium->root and minimize->(f, grad f). Convergence itself "
+            "is not decided (not applicable to this family).",
+    "note": "Trusted: stub-torch contracts, floats as reals, user function pure/uninterpreted, Jacobian models and Armijo "
+            "search abstracted by contracts, z3/cvc5. Not decided: that methods converge silently and agree.",
+    "design_ref": "DESIGN.md section 6 C03",
+}
+
 META = {
     "level": "proof",
     "files": ["xitorch/_impls/optimize/root/rootsolver.py", "xitorch/_impls/optimize/equilibrium.py",
